@@ -252,3 +252,12 @@ def run_case(case, ctx):
                   lambda: "got x=%r y=%r mp=%r expected %r"
                   % (list(P.x), list(P.y), list(P.mp),
                      [(float(t), float(y), float(mp)) for t, y, mp in exp_m]))
+
+
+def siblings(case):
+    """run right after the case in the same process (runner._run_one)"""
+    sibs = [ps.sibling_wider_edges(case)]
+    extra = ps.sibling_same_count_and_sum(case)
+    if extra is not None:
+        sibs.append(extra)
+    return sibs
